@@ -1,8 +1,9 @@
-\* thorough: two nodes, one client, a services link with one pseudo-client, longer horizon; safety, exhaustive
+\* thorough: three nodes (leader and two followers, one change of leader), one client and a services link
+\* with a pseudo-client; safety, exhaustive
 SPECIFICATION Spec
 CONSTANTS
     n1 = n1  n2 = n2  n3 = n3  c1 = c1  c2 = c2  k1 = k1  p1 = p1
-    Nodes = {n1, n2}
+    Nodes = {n1, n2, n3}
     Clients = {c1}
     Links = {k1}
     Pseudo = {p1}
@@ -10,13 +11,13 @@ CONSTANTS
     Interval = 2
     Exps = {1, 2}
     InitExp = 1
-    MaxTime = 4
+    MaxTime = 3
     MaxLag = 1
     MaxChanges = 1
     MaxPend = 1
     MaxConfigs = 1
     None = None
-SYMMETRY SymNodes2
+SYMMETRY SymNodes
 INVARIANTS TypeOK OnlyIdleExpire ActiveNeverExpires ExpiredSessionGone NickUnique
 PROPERTIES FollowersNeverPropose
 CHECK_DEADLOCK FALSE
